@@ -22,3 +22,6 @@ def check(ctx):
     ctx.rule("R11.3", "scalar results for single weighted rows (shared with C14 R14.4)")
     ctx.guard(c14.r144_scalar, ctx, rule="R11.3")
     ctx.guard(c14.r146_pure, ctx, rule="R11.4")
+    ctx.rule("R11.5", "the generated and derived metrics (make_derived_metric: *_difference, *_ratio, *_group_min, *_group_max) hand the "
+                      "caller's sample parameters to the MetricFrame on every transform (shared with C03 R03.3)")
+    ctx.aliased({"R03.3": "R11.5"}, c03.r033_generated, ctx)
